@@ -1061,3 +1061,105 @@ func init() {
 		return mkBool(a0 <= bEnd && b0 <= aEnd)
 	}
 }
+
+// ---- generic struct helpers for harnesses (field lists come from the type, so a field
+// added to a struct is covered without touching the harness)
+
+func structOf(x *Exec, v Value) (types.Type, Struct) {
+	i := v.(Iface)
+	pt, ok := i.T.Underlying().(*types.Pointer)
+	if !ok {
+		panic(unsupported{"verifrt struct helper needs a pointer to struct"})
+	}
+	p := i.V.(*Value)
+	return pt.Elem(), (*p).(Struct)
+}
+
+func skipSet(v Value) map[string]bool {
+	m := map[string]bool{}
+	for _, n := range strings.Split(strArg(v), ",") {
+		if n != "" {
+			m[n] = true
+		}
+	}
+	return m
+}
+
+// walkInts visits integer fields (recursing into nested structs) in declaration order.
+func walkInts(t types.Type, s Struct, skip map[string]bool, prefix string, f func(name string, ft types.Type, cell *Value)) {
+	st, ok := t.Underlying().(*types.Struct)
+	if !ok {
+		return
+	}
+	for i := 0; i < st.NumFields(); i++ {
+		fld := st.Field(i)
+		if skip[fld.Name()] {
+			continue
+		}
+		ft := fld.Type()
+		if _, _, isInt := intInfo(ft); isInt {
+			f(prefix+fld.Name(), ft, &s[i])
+			continue
+		}
+		if _, isStruct := ft.Underlying().(*types.Struct); isStruct {
+			if sub, ok := s[i].(Struct); ok {
+				walkInts(ft, sub, skip, prefix+fld.Name()+".", f)
+			}
+		}
+	}
+}
+
+func init() {
+	rt := func(name string, f intrinsic) { intrinsics[rtPath+"."+name] = f }
+	// FillInts(ptr, name, lo, hi, skip)
+	rt("FillInts", func(x *Exec, fr *frame, args []Value) Value {
+		t, s := structOf(x, args[0])
+		lo, hi := args[2].(*Term), args[3].(*Term)
+		walkInts(t, s, skipSet(args[4]), "", func(name string, ft types.Type, cell *Value) {
+			w, signed, _ := intInfo(ft)
+			v := x.freshInput(strArg(args[1])+"."+name, w)
+			var l, h *Term
+			if signed {
+				l, h = x.cx.SExt(x.cx.Extract(w-1, 0, lo), w), x.cx.SExt(x.cx.Extract(w-1, 0, hi), w)
+				if w == 64 {
+					l, h = lo, hi
+				} else {
+					l, h = x.cx.Extract(w-1, 0, lo), x.cx.Extract(w-1, 0, hi)
+				}
+				x.Assume(x.cx.And(x.cx.Cmp("bvsle", l, v), x.cx.Cmp("bvsle", v, h)))
+			} else {
+				l, h = x.cx.Extract(w-1, 0, lo), x.cx.Extract(w-1, 0, hi)
+				x.Assume(x.cx.And(x.cx.Cmp("bvule", l, v), x.cx.Cmp("bvule", v, h)))
+			}
+			*cell = v
+		})
+		return nil
+	})
+	// AddInts(dst, src, skip): dst.f += src.f
+	rt("AddInts", func(x *Exec, fr *frame, args []Value) Value {
+		t, d := structOf(x, args[0])
+		_, s := structOf(x, args[1])
+		var cells []*Value
+		walkInts(t, s, skipSet(args[2]), "", func(name string, ft types.Type, cell *Value) { cells = append(cells, cell) })
+		i := 0
+		walkInts(t, d, skipSet(args[2]), "", func(name string, ft types.Type, cell *Value) {
+			*cell = x.cx.Bin("bvadd", (*cell).(*Term), (*cells[i]).(*Term))
+			i++
+		})
+		return nil
+	})
+	// EqInts(a, b, skip) bool
+	rt("EqInts", func(x *Exec, fr *frame, args []Value) Value {
+		t, a := structOf(x, args[0])
+		_, b := structOf(x, args[1])
+		var cells []*Value
+		walkInts(t, b, skipSet(args[2]), "", func(name string, ft types.Type, cell *Value) { cells = append(cells, cell) })
+		r := tTrue
+		i := 0
+		walkInts(t, a, skipSet(args[2]), "", func(name string, ft types.Type, cell *Value) {
+			r = x.cx.And(r, x.cx.Eq((*cell).(*Term), (*cells[i]).(*Term)))
+			i++
+		})
+		return r
+	})
+}
